@@ -113,9 +113,12 @@ static const char rcsid[] = "$Id: proxyd.c,v 1.20 2013-08-28 14:45:58 mschimek E
 #include <stdarg.h>
 static void verif_trace (const char * fmt, ...);
 static vbi_capture * verif_capture_new (const char * p_dev_name);
+static void verif_trace_state (const char * p_event, int fd);
 #  define VERIF_TRACE(args...) verif_trace(args)
+#  define VERIF_STATE(ev, fd) verif_trace_state(ev, fd)
 #else
 #  define VERIF_TRACE(args...) do {} while (0)
+#  define VERIF_STATE(ev, fd) do {} while (0)
 #endif
 
 #ifdef ENABLE_V4L2
@@ -596,6 +599,7 @@ static PROXY_QUEUE * vbi_proxy_queue_force_free( PROXY_DEV * p_proxy_dev )
       {
          if (req->p_sliced == p_proxy_dev->p_sliced)
          {
+            VERIF_TRACE("\"e\":\"force\",\"c\":%d,\"id\":%d", req->io.sock_fd, (int) req->p_sliced->timestamp);
             vbi_proxy_queue_release_sliced(req);
          }
       }
@@ -661,6 +665,8 @@ static void vbi_proxyd_forward_data( int dev_idx )
                   req->p_sliced = p_buf;
             }
          }
+         VERIF_TRACE("\"e\":\"cap\",\"id\":%d,\"n\":%d,\"refs\":%d,\"devsrv\":%u",
+                     (int) p_buf->timestamp, p_buf->line_count, p_buf->ref_count, p_proxy_dev->all_services);
 
          pthread_mutex_unlock(&p_proxy_dev->queue_mutex);
          pthread_mutex_unlock(&proxy.clnt_mutex);
@@ -1037,6 +1043,30 @@ static vbi_capture * verif_capture_new( const char * p_dev_name )
    verif_capture_update_dec(v);
 
    return &v->cap;
+}
+
+/* ----------------------------------------------------------------------------
+** Verification hook: state of all connections, device and queue after a daemon action
+*/
+static void verif_trace_state( const char * p_event, int fd )
+{
+   char buf[1500];
+   PROXY_CLNT  * req;
+   PROXY_QUEUE * p_buf;
+   int n = 0;
+
+   n += snprintf(buf + n, sizeof(buf) - n, "\"e\":\"%s\",\"c\":%d,\"clients\":[", p_event, fd);
+   for (req = proxy.p_clnts; (req != NULL) && (n < 1200); req = req->p_next)
+      n += snprintf(buf + n, sizeof(buf) - n, "%s[%d,%d,%d,%d,%u,%d]", (req == proxy.p_clnts) ? "" : ",",
+                    req->io.sock_fd, (int) req->state, (int) req->chn_state.token_state, (int) req->chn_prio,
+                    req->all_services, (req->p_sliced != NULL) ? (int) req->p_sliced->timestamp : -1);
+   n += snprintf(buf + n, sizeof(buf) - n, "],\"open\":%d,\"devsrv\":%u,\"queue\":[",
+                 proxy.dev[0].p_capture != NULL, proxy.dev[0].all_services);
+   for (p_buf = proxy.dev[0].p_sliced; (p_buf != NULL) && (n < 1400); p_buf = p_buf->p_next)
+      n += snprintf(buf + n, sizeof(buf) - n, "%s[%d,%d]", (p_buf == proxy.dev[0].p_sliced) ? "" : ",",
+                    (int) p_buf->timestamp, p_buf->ref_count);
+   n += snprintf(buf + n, sizeof(buf) - n, "]");
+   verif_trace("%s", buf);
 }
 #endif  /* ZVBI_VERIF */
 
@@ -1965,6 +1995,7 @@ static void vbi_proxyd_close( PROXY_CLNT * req, vbi_bool close_all )
    {
       dprintf(DBG_MSG, "close: fd %d\n", req->io.sock_fd);
       vbi_proxy_msg_logger(LOG_INFO, req->io.sock_fd, 0, "closing connection", NULL);
+      VERIF_TRACE("\"e\":\"closing\",\"c\":%d", req->io.sock_fd);
 
       vbi_proxy_msg_close_io(&req->io);
 
@@ -1978,6 +2009,7 @@ static void vbi_proxyd_close( PROXY_CLNT * req, vbi_bool close_all )
       pthread_mutex_unlock(&proxy.dev[req->dev_idx].queue_mutex);
 
       req->state = REQ_STATE_CLOSED;
+      VERIF_STATE("close", req->io.sock_fd);
    }
 }
 
@@ -2116,6 +2148,8 @@ static vbi_bool vbi_proxyd_send_sliced( PROXY_CLNT * req, vbi_bool * p_blocked )
                                           p_msg->body.sliced_ind.raw_lines);
 
       vbi_proxy_msg_write(&req->io, MSG_TYPE_SLICED_IND, msg_size, p_msg, TRUE);
+      VERIF_TRACE("\"e\":\"snd\",\"c\":%d,\"id\":%d,\"n\":%d", req->io.sock_fd,
+                  (int) req->p_sliced->timestamp, (int) p_msg->body.sliced_ind.sliced_lines);
 
       if (vbi_proxy_msg_handle_write(&req->io, p_blocked))
       {
@@ -2644,6 +2678,8 @@ static void vbi_proxyd_handle_client_sockets( fd_set * rd, fd_set * wr )
                   {  /* message no accepted (e.g. wrong state) */
                      vbi_proxyd_close(req, FALSE);
                   }
+                  else
+                     VERIF_STATE("msg", req->io.sock_fd);
                }
                else
                {  /* message has illegal size or content */
@@ -2678,6 +2714,7 @@ static void vbi_proxyd_handle_client_sockets( fd_set * rd, fd_set * wr )
             vbi_proxy_msg_write(&req->io, MSG_TYPE_CHN_RECLAIM_REQ,
                                 sizeof(req->msg_buf.body.chn_reclaim_req), &req->msg_buf, FALSE);
             req->chn_state.token_state = REQ_TOKEN_RELEASE;
+            VERIF_STATE("reclaim", req->io.sock_fd);
          }
          else if (req->chn_state.token_state == REQ_TOKEN_GRANT)
          {
@@ -2686,6 +2723,7 @@ static void vbi_proxyd_handle_client_sockets( fd_set * rd, fd_set * wr )
             vbi_proxy_msg_write(&req->io, MSG_TYPE_CHN_TOKEN_IND,
                                 sizeof(req->msg_buf.body.chn_token_ind), &req->msg_buf, FALSE);
             req->chn_state.token_state = REQ_TOKEN_GRANTED;
+            VERIF_STATE("grant", req->io.sock_fd);
          }
          else if (req->chn_status_ind)
          {  /* send channel change indication */
